@@ -4,6 +4,7 @@ import (
 	"fmt"
 	"runtime"
 	"sync"
+	"sync/atomic"
 	"time"
 
 	"github.com/ThreeDotsLabs/watermill/message"
@@ -47,7 +48,7 @@ var c03Kinds = []string{"new", "copy-unsettled", "copy-acked", "copy-nacked", "z
 
 func c03Make(kind string) *message.Message {
 	switch kind {
-	case "new":
+	case "new", "compared-crosswise":
 		return message.NewMessage("u", []byte("p"))
 	case "copy-unsettled":
 		return message.NewMessage("u", []byte("p")).Copy()
@@ -92,12 +93,13 @@ func init() {
 		},
 		Rule: "sequential part: every op sequence over {Ack,Nack,Acked?,Nacked?} of length 0..8 (87381 sequences) on 5 message kinds " +
 			"(NewMessage, Copy of unsettled/acked/nacked, zero value), checked step by step against the 3-state model, once with both channels observed after every step and once with no reads but the sequence's own (exhaustive, counter seq_sequences); " +
-			"concurrent part: batches of 40 histories of 2..16 goroutines x 1..4 ops on one shared message (NewMessage, Copy, zero value, zero value settled by one earlier call, Copy taken while four goroutines hammer Ack/Nack on the source) with Gosched injection, each history checked " +
+			"concurrent part: batches of 40 histories of 2..16 goroutines x 1..4 ops on one shared message (NewMessage, Copy, zero value, zero value settled by one earlier call, Copy taken while four goroutines hammer Ack/Nack on the source, NewMessage compared with a peer by four bystander goroutines calling Equals in both directions before and during the history - judged on the message or on the peer) with Gosched injection, each history checked " +
 			"with porcupine against the same model. A concurrent case is non-trivial when operations of different goroutines overlapped in logical time and " +
 			"both Ack and Nack were attempted; distinct = distinct (kind, observed history) hashes; a sequential case is non-trivial always, distinct per (kind, block).",
 		Assumptions: []string{
 			"zero-value messages: concurrent histories race Ack and Nack only and read Acked()/Nacked() after the join (reading the channel fields concurrently with the first Ack/Nack on a message built without the constructor is not promised); kind zero-settled settles such a message by one sequential call first and then races all four operations (nothing writes the channel fields after the first settlement, so the reads are race-free on the pinned tree)",
 			"no call blocks: decided by the quiescence detector, not by a time-out",
+			"kind compared-crosswise: Equals is not in the judged alphabet; it only runs beside it (it reads UUID, payload and metadata, race-free on the pinned tree). What is judged is still that Ack/Nack/Acked()/Nacked() on the message linearize and never block while other goroutines use the message's read-only API",
 		},
 		Run: c03Run,
 	})
@@ -221,7 +223,7 @@ var c03Model = porcupine.Model{
 
 func c03Conc(e *vlib.Env) vlib.Result {
 	res := vlib.Result{Class: "concurrent"}
-	kinds := []string{"new", "copy-unsettled", "zero", "new", "zero-settled", "copy-of-busy-source"}
+	kinds := []string{"new", "copy-unsettled", "zero", "new", "zero-settled", "copy-of-busy-source", "compared-crosswise"}
 	distinct := map[string]bool{}
 	overlapping := 0
 	var sample any
@@ -262,6 +264,42 @@ func c03Conc(e *vlib.Env) vlib.Result {
 			m = src.Copy()
 			close(stopH)
 			hw.Wait()
+		}
+		var stopCmp chan struct{}
+		var cmpWg sync.WaitGroup
+		if kind == "compared-crosswise" {
+			// bystanders compare the message with a peer in both directions (m.Equals(peer), peer.Equals(m)) before and
+			// while the history runs: Equals reads UUID, payload and metadata only (race-free on the pinned tree) and
+			// whatever it does internally, "no call blocks" still has to hold for Ack/Nack on m and on the peer
+			peer := message.NewMessage("u", []byte("p"))
+			stopCmp = make(chan struct{})
+			var calls atomic.Int64
+			ma, mb := m, peer
+			for b := 0; b < 4; b++ {
+				cmpWg.Add(1)
+				go func(b int) {
+					defer cmpWg.Done()
+					for {
+						select {
+						case <-stopCmp:
+							return
+						default:
+						}
+						if b%2 == 0 {
+							ma.Equals(mb)
+						} else {
+							mb.Equals(ma)
+						}
+						calls.Add(1)
+					}
+				}(b)
+			}
+			// warm-up (no verdict here): if the bystanders wedge each other the history below shows it as a blocked Ack/Nack
+			vlib.WaitUntil(func() bool { return calls.Load() >= 4000 }, vlib.WD)
+			res.Count("crosswise_equals_calls_before_history", int(calls.Load()))
+			if h%2 == 1 {
+				m = peer // judge the peer in half of these histories
+			}
 		}
 		if kind == "zero-settled" {
 			op := e.R.Intn(2)
@@ -323,6 +361,17 @@ func c03Conc(e *vlib.Env) vlib.Result {
 		go func() { wg.Wait(); close(doneCh) }()
 		close(start)
 		oc, dump := vlib.WaitClosed(doneCh, vlib.WD)
+		if stopCmp != nil && oc == vlib.Done {
+			close(stopCmp)
+			cmpDone := make(chan struct{})
+			go func() { cmpWg.Wait(); close(cmpDone) }()
+			if o, _ := vlib.WaitClosed(cmpDone, vlib.WD); o == vlib.Stuck {
+				// the comparing bystanders never came back; the history above happened not to need what they hold: probe with one settling call
+				probe := make(chan struct{})
+				go func() { m.Ack(); close(probe) }()
+				oc, dump = vlib.WaitClosed(probe, vlib.WD)
+			}
+		}
 		if oc == vlib.Stuck {
 			res.Fail("blocks", "concurrent Ack/Nack history on a %s message never finished (process quiescent)", kind)
 			res.Witness = dump
